@@ -60,7 +60,7 @@ def model_prog(cfg):
     out = []
     n = 0
     for o in ops:
-        if o in ("s", "f", "g"):
+        if o in ("s", "f", "g", "l"):
             n += 1
             out.append("s%d" % n)
         elif o in ("c", "x"):
@@ -76,7 +76,7 @@ def gen_cfg(rng, tier):
     for _ in range(budget):
         r = rng.below(20)
         if r < 11 or not ops:
-            ops.append(rng.pick("sssfg") if style != 0 else "s")
+            ops.append(rng.pick("sssfgl") if style != 0 else "s")
         elif r < 13:
             ops.append("c")
         elif r < 16:
@@ -495,7 +495,7 @@ def run_tie(prop, spec, tier, seed):
         if parked:
             feat["worker_parked"] += 1
             distinct.add((cfg_of(r), tuple(steps)))
-        if "x" in ops[:-1] and any(o in "sfg" for o in ops[ops.index("x"):]):
+        if "x" in ops[:-1] and any(o in "sfgl" for o in ops[ops.index("x"):]):
             feat["restart"] += 1
         if any(s.startswith("pool ocs q ") for s in steps):
             feat["clear_with_queued"] += 1
